@@ -367,8 +367,11 @@ func run(r *mc.Run) {
 			for _, m := range [][]nodeState{menu, ecMenu} {
 				m := m
 				isEc := len(m) == len(ecMenu)
-				if isEc && nn > r.Pick(2, 3) {
+				if isEc && nn > 3 {
 					continue
+				}
+				if isEc && nn == 3 && r.Quick() {
+					m = []nodeState{ecMenu[0], ecMenu[3], ecMenu[1]} // quick: one free / one EC shard eats the slot / 11 shards
 				}
 				if !isEc && nn >= 4 && (r.Quick() || nn >= 5) {
 					m = m[:2] // larger shapes with states {full, one free} only
